@@ -320,13 +320,30 @@ func (a tagAtom) match(tags map[string]string) bool {
 
 // mQuery is a generated query.
 type mQuery struct {
-	Metric  string
-	Items   []selectItem
-	Cond    []tagAtom // conjunction
-	Start   int64     // ms, as written in the statement (second precision)
-	End     int64
-	UserIv  int64 // group by time(x) in ms, 0 = none
-	GroupBy []string
+	Metric string
+	Items  []selectItem
+	Cond   []tagAtom // conjunction
+	// Where (optional, see richcond_test.go): a generated and/or/parenthesis tree over =, !=, like, not like,
+	// =~, !~, in, not in; WhereText is its SQL text, Where the tree the model evaluates on the tags of every
+	// series. TimeFirst: the time range is written in front of the tag condition.
+	Where     *condNode `json:",omitempty"`
+	WhereText string    `json:",omitempty"`
+	TimeFirst bool      `json:",omitempty"`
+	WhereKind string    `json:",omitempty"`
+	Start     int64     // ms, as written in the statement (second precision)
+	End       int64
+	UserIv    int64 // group by time(x) in ms, 0 = none
+	GroupBy   []string
+}
+
+// matches: the naive predicate of the statement's tag condition on the tags of one series.
+func (q mQuery) matches(tags map[string]string) bool {
+	for _, a := range q.Cond {
+		if !a.match(tags) {
+			return false
+		}
+	}
+	return q.Where == nil || q.Where.eval(tags)
 }
 
 func fmtTime(ms int64) string {
@@ -342,7 +359,15 @@ func (q mQuery) sql() string {
 	for _, a := range q.Cond {
 		conds = append(conds, a.sql())
 	}
-	conds = append(conds, fmt.Sprintf("time>='%s' and time<='%s'", fmtTime(q.Start), fmtTime(q.End)))
+	if q.WhereText != "" {
+		conds = append(conds, q.WhereText)
+	}
+	timeRange := fmt.Sprintf("time>='%s' and time<='%s'", fmtTime(q.Start), fmtTime(q.End))
+	if q.TimeFirst {
+		conds = append([]string{timeRange}, conds...)
+	} else {
+		conds = append(conds, timeRange)
+	}
 	s := fmt.Sprintf("select %s from %s where %s", strings.Join(items, ","), q.Metric, strings.Join(conds, " and "))
 	var gb []string
 	gb = append(gb, q.GroupBy...)
@@ -638,13 +663,7 @@ func (m *model) evalWithRisk(q mQuery, sem semantics, riskFams map[int64]bool) (
 		var order []cellKey
 		for _, sk := range seriesKeys {
 			s := mm.Series[sk]
-			matched := true
-			for _, a := range q.Cond {
-				if !a.match(s.Tags) {
-					matched = false
-				}
-			}
-			if !matched {
+			if !q.matches(s.Tags) {
 				continue
 			}
 			gk, ok := groupKeyOf(q.GroupBy, s.Tags)
